@@ -393,6 +393,12 @@ def preconditions(c, schema):
     return True
 
 
+def fn_snapshot(fns):
+    """what a caller can observe of the method functions: signature, annotations, defaults"""
+    return [(k, str(inspect.signature(fn)), repr(fn.__annotations__), repr(fn.__defaults__), repr(fn.__kwdefaults__),
+             repr(inspect.getfullargspec(fn))) for k, fn in fns.items()]
+
+
 def impl(c):
     import cincoconfig as cc
     from cincoconfig.fields import VirtualField, InstanceMethodField
@@ -419,6 +425,7 @@ def impl(c):
         c["_exp_class"] = c["class_name"] or (c.get("type_name") or "T" if c["target"] == "type" else None)
         before = snap_schema(schema)
         before_cfg = repr(cc.asdict(cfg)) if cfg is not None else None
+        fn_before = fn_snapshot(fns)
     except Exception as e:  # noqa
         c["_setup_error"] = "%s: %s" % (type(e).__name__, e)
         return ("err", "setup")
@@ -434,6 +441,43 @@ def impl(c):
     except Exception as e:  # noqa
         c["_exc"] = type(e).__name__
         out = ("err", "other")
+    first = out if out is not None else text
+    # ---- the same process generates again: same target; the schema itself; a Config built from it; a
+    # sibling schema and a config type that share the method FUNCTION objects; then the original again.
+    # Every generation must satisfy the whole oracle and be character-identical to the first one.
+    def gen(target, name):
+        try:
+            with contextlib.redirect_stdout(buf):
+                return generate_stub(target, name)
+        except TypeError:
+            return ("err", "type")
+        except IndexError:
+            return ("err", "index")
+        except Exception:  # noqa
+            return ("err", "other")
+    repeats = []          # (label, result, same-shape-as-first?)
+    try:
+        repeats.append(("same target again", gen(tgt, c["class_name"]), True))
+        if c["_exp_class"] and c["target"] != "other":
+            repeats.append(("the schema", gen(schema, c["_exp_class"]), True))
+            cfg2 = schema()
+            repeats.append(("a configuration built from the schema", gen(cfg2, c["_exp_class"]), True))
+            sib = cc.Schema()
+            for k, fn in fns.items():
+                cc.instance_method(sib, k)(fn)
+            repeats.append(("a sibling schema sharing the method functions", gen(sib, c["_exp_class"]), False))
+            sib2 = cc.Schema()
+            for k, fn in fns.items():
+                cc.instance_method(sib2, k)(fn)
+            repeats.append(("a config type sharing the method functions",
+                            gen(cc.make_type(sib2, c["_exp_class"]), None), False))
+            repeats.append(("the schema after the siblings", gen(schema, c["_exp_class"]), True))
+        repeats.append(("same target, last", gen(tgt, c["class_name"]), True))
+    except Exception as e:  # noqa
+        c["_setup_error"] = "repeat: %s: %s" % (type(e).__name__, e)
+    c["_repeats"] = [(lab, r, same) for lab, r, same in repeats]
+    c["_first"] = first
+    c["_fn_unchanged"] = fn_snapshot(fns) == fn_before
     c["_stdout"] = buf.getvalue()
     c["_unchanged"] = (snap_schema(schema) == before
                        and (cfg is None or repr(cc.asdict(cfg)) == before_cfg))
@@ -451,33 +495,23 @@ def impl(c):
 # ---------------------------------------------------------------------------------------------
 # direct oracle: the property itself, on the implementation only
 # ---------------------------------------------------------------------------------------------
-def oracle(c, obs):
-    if "_setup_error" in c:
-        return ["harness could not build the case: " + c["_setup_error"]]
+def check_text(text, exp_class, exp_attrs, exp_init, exp_methods):
+    """the property clauses about one generated text"""
     bad = []
-    if c.get("_stdout"):
-        bad.append("generate_stub wrote to standard output")
-    if not c.get("_unchanged"):
-        bad.append("generate_stub changed the schema or the configuration")
-    if obs[0] == "err":
-        if c.get("domain", True):
-            bad.append("generate_stub raised (%s) for a schema inside the property's domain" % obs[1])
-        return bad
-    text = c["_text"]
     if not isinstance(text, str):
-        return bad + ["generate_stub did not return a string"]
+        return ["generate_stub did not return a string"]
     try:
         tree = ast.parse(text)
     except SyntaxError:
-        return bad + ["the generated stub is not valid Python"]
+        return ["the generated stub is not valid Python"]
     classes = [n for n in tree.body if isinstance(n, ast.ClassDef)]
     if len(classes) != 1 or len(tree.body) != 1:
-        return bad + ["the stub does not declare exactly one class"]
+        return ["the stub does not declare exactly one class"]
     cls = classes[0]
-    if cls.name != c["_exp_class"]:
+    if cls.name != exp_class:
         bad.append("the class is not named as requested")
     attrs = [n.target.id for n in cls.body if isinstance(n, ast.AnnAssign) and isinstance(n.target, ast.Name)]
-    if attrs != c["_exp_attrs"]:
+    if attrs != exp_attrs:
         bad.append("annotated attributes differ from the non-method fields")
     fns = [n for n in cls.body if isinstance(n, ast.FunctionDef)]
     names = [n.name for n in fns]
@@ -487,12 +521,11 @@ def oracle(c, obs):
     else:
         a = inits[0].args
         got = [x.arg for x in a.posonlyargs + a.args]
-        if got != ["self"] + c["_exp_init"] or a.vararg or a.kwonlyargs or a.kwarg:
+        if got != ["self"] + exp_init or a.vararg or a.kwonlyargs or a.kwarg:
             bad.append("__init__ parameters differ from self + the persistent fields")
-    exp = c["_exp_methods"]
-    if sorted(n for n in names if n != "__init__") != sorted(k for k, _ in exp):
+    if sorted(n for n in names if n != "__init__") != sorted(k for k, _ in exp_methods):
         bad.append("the methods of the stub differ from the instance methods of the schema")
-    for k, want in exp:
+    for k, want in exp_methods:
         for n in fns:
             if n.name == k:
                 a = n.args
@@ -501,6 +534,42 @@ def oracle(c, obs):
                        a.kwarg.arg if a.kwarg else None)
                 if a.posonlyargs or not pos or got != (list(want[0]), want[1], list(want[2]), want[3]):
                     bad.append("method %s: parameter names/kinds differ from the bound function" % k)
+    return bad
+
+
+def oracle(c, obs):
+    if "_setup_error" in c:
+        return ["harness could not build the case: " + c["_setup_error"]]
+    bad = []
+
+    def add(msgs):
+        for m in msgs:
+            if m not in bad:
+                bad.append(m)
+    if c.get("_stdout"):
+        bad.append("generate_stub wrote to standard output")
+    if not c.get("_unchanged"):
+        bad.append("generate_stub changed the schema or the configuration")
+    if not c.get("_fn_unchanged", True):
+        bad.append("generate_stub changed the signature / annotations / defaults of a method function")
+    first = c.get("_first")
+    # every further generation in the same process: identical to the first, and the whole oracle again
+    for lab, r, same in c.get("_repeats", []):
+        if isinstance(r, tuple):
+            if not isinstance(first, tuple) or (same and tuple(first) != tuple(r)):
+                add(["generating again (%s) raised although the first generation did not" % lab])
+            continue
+        if same:
+            if r != first:
+                add(["generating again (%s) does not give the text of the first generation" % lab])
+            add(check_text(r, c["_exp_class"], c["_exp_attrs"], c["_exp_init"], c["_exp_methods"]))
+        else:
+            add(check_text(r, c["_exp_class"], [], [], c["_exp_methods"]))
+    if obs[0] == "err":
+        if c.get("domain", True):
+            bad.append("generate_stub raised (%s) for a schema inside the property's domain" % obs[1])
+        return bad
+    add(check_text(c["_text"], c["_exp_class"], c["_exp_attrs"], c["_exp_init"], c["_exp_methods"]))
     return bad
 
 
